@@ -307,7 +307,7 @@ def eval_cases(tag, imports, rtype, eqb, pairs, shard=300, extra_defs=""):
         lines.append(f"Definition cases : list ({rtype} * {rtype}) := [")
         lines.append(";\n".join(f" ({g}, {e})" for g, e in chunk))
         lines.append("].")
-        lines.append(f"Eval vm_compute in (mismatches_from {si} {eqb} cases).")
+        lines.append(f"Eval vm_compute in (mismatches_from {si}%N {eqb} cases).")
         (work / f"{name}.v").write_text("\n".join(lines) + "\n")
         files.append(name)
 
@@ -331,7 +331,7 @@ def eval_cases(tag, imports, rtype, eqb, pairs, shard=300, extra_defs=""):
             if body.strip() == "[]":
                 continue
             found = 0
-            for mm in re.finditer(r"\(\s*(\d+)(?:%nat)?,\s*(.*?)\)(?=;\s*\(\s*\d+(?:%nat)?,|\s*\]$)", body):
+            for mm in re.finditer(r"\(\s*(\d+)(?:%N|%nat)?,\s*(.*?)\)(?=;\s*\(\s*\d+(?:%N|%nat)?,|\s*\]$)", body):
                 mism[int(mm.group(1))] = re.sub(r"\s+", " ", mm.group(2))
                 found += 1
             if found == 0:
